@@ -35,6 +35,7 @@ import (
 	"github.com/restic/restic/internal/verifshim/gatebe"
 	"github.com/restic/restic/internal/verifshim/oracle"
 	"github.com/restic/restic/internal/verifshim/vh"
+	"github.com/restic/restic/internal/verifshim/xplore"
 )
 
 type verifC15Op struct {
@@ -43,9 +44,51 @@ type verifC15Op struct {
 	// mayFail: the command may legitimately refuse (e.g. nothing to do); then the state must be unchanged-consistent anyway
 }
 
-func verifC15Check(t testing.TB, ctx context.Context, scratch string, st gatebe.State) []string {
-	store := gatebe.NewStoreFrom(st, nil)
-	be := &gatebe.Backend{S: store, Proc: "check", Conns: 3, AtomicReplace: true}
+// verifC15Check is the state oracle.  The order in which check's parallel index loader hands the index
+// files to the master index is the runtime's choice and the merged index may depend on it, so for states
+// with several index files the loader's completion order is explored as well: index loads are gated and
+// every order within the deviation bound (quick 1, thorough 2 departures from arrival order) is executed.
+func verifC15Check(t *testing.T, ctx context.Context, scratch string, st gatebe.State, orderBound int) []string {
+	nIdx := 0
+	for k := range st {
+		if k.Type == backend.IndexFile {
+			nIdx++
+		}
+	}
+	if nIdx < 2 {
+		store := gatebe.NewStoreFrom(st, nil)
+		return verifC15CheckOn(t, ctx, scratch, &gatebe.Backend{S: store, Proc: "check", Conns: 3, AtomicReplace: true})
+	}
+	var probs []string
+	orders := 0
+	sc := xplore.Scenario{
+		Start: func(x *xplore.Exec) {
+			store := gatebe.NewStoreFrom(st, nil)
+			be := &gatebe.Backend{S: store, Proc: "check", Conns: 3, AtomicReplace: true, X: func() *xplore.Exec { return x },
+				Filter: func(op *gatebe.Op) bool { return op.Kind == "Load" && op.Key.Type == backend.IndexFile }}
+			x.Go("check", func() { x.Data = verifC15CheckOn(t, x.Ctx, scratch, be) })
+		},
+	}
+	xplore.Explore(t, sc, xplore.Options{Policy: xplore.FIFO, Bound: orderBound, MaxSteps: 400, RootOwner: true}, func(x *xplore.Exec) {
+		orders++
+		switch {
+		case len(x.Panics) > 0:
+			probs = append(probs, "check panicked: "+x.Panics[0])
+		case x.Deadlock:
+			probs = append(probs, "check blocked forever")
+		default:
+			if p, _ := x.Data.([]string); len(p) > 0 && len(probs) == 0 {
+				probs = append(probs, fmt.Sprintf("%s [index files handed to the master index in the order %s]", strings.Join(p, "; "), strings.Join(x.Labels, " ")))
+			}
+		}
+	})
+	verifC15Orders += int64(orders)
+	return probs
+}
+
+var verifC15Orders int64
+
+func verifC15CheckOn(t testing.TB, ctx context.Context, scratch string, be *gatebe.Backend) []string {
 	gopts := verifGopts(t, scratch, be, oracle.Password)
 	if err := verifRun(t, ctx, gopts, func(ctx context.Context, gopts global.Options) error {
 		return runUnlock(ctx, UnlockOptions{RemoveAll: true}, gopts, gopts.Term)
@@ -67,7 +110,7 @@ func verifC15Check(t testing.TB, ctx context.Context, scratch string, st gatebe.
 func TestVerif_C15(t *testing.T) {
 	r := vh.Start(t, "C15")
 	defer r.Finish()
-	r.Rule("all histories up to the length bound over 10-11 real command functions; prefix run to completion, last operation under the GATE explorer (deviation bound 0 quick / 1 thorough); every scheduler step + in-flight subsets is a crash state; oracle = real unlock --remove-all + runCheck --read-data. non-trivial = crash state that differs from the state before the last operation.")
+	r.Rule("all histories up to the length bound over 10-11 real command functions; prefix run to completion, last operation under the GATE explorer (deviation bound 0 quick / 1 thorough); every scheduler step + in-flight subsets is a crash state; oracle = real unlock --remove-all + runCheck --read-data, for states with several index files once per completion order of the parallel index loader within its own deviation bound. non-trivial = crash state that differs from the state before the last operation.")
 	r.Assume("backend Save/Remove are atomic (C36)", "lock files are not gated")
 	ctx := context.Background()
 	oracle.LowKDF()
@@ -87,8 +130,12 @@ func TestVerif_C15(t *testing.T) {
 	bopts := BackupOptions{Host: "verifhost", GroupBy: data.SnapshotGroupByOptions{Host: true, Path: true}}
 
 	ops := []verifC15Op{
-		{"backup1", func(ctx context.Context, g global.Options) error { return runBackup(ctx, bopts, g, g.Term, []string{src1}) }},
-		{"backup2", func(ctx context.Context, g global.Options) error { return runBackup(ctx, bopts, g, g.Term, []string{src2}) }},
+		{"backup1", func(ctx context.Context, g global.Options) error {
+			return runBackup(ctx, bopts, g, g.Term, []string{src1})
+		}},
+		{"backup2", func(ctx context.Context, g global.Options) error {
+			return runBackup(ctx, bopts, g, g.Term, []string{src2})
+		}},
 		{"forget-last1", func(ctx context.Context, g global.Options) error {
 			return runForget(ctx, ForgetOptions{Last: 1, GroupBy: data.SnapshotGroupByOptions{Host: true}}, PruneOptions{MaxUnused: "5%"}, g, g.Term, nil)
 		}},
@@ -122,6 +169,7 @@ func TestVerif_C15(t *testing.T) {
 
 	maxLen := 2
 	bound := vh.Pick(r, 0, 1)
+	orderBound := vh.Pick(r, 1, 2)
 	type hist struct {
 		version uint
 		ops     []verifC15Op
@@ -151,6 +199,12 @@ func TestVerif_C15(t *testing.T) {
 				}
 			}
 		}
+	}
+
+	if !r.Thorough() {
+		// quick: two fixed deeper histories whose last operation repacks (duplicate blobs, rewritten index)
+		hists = append(hists, hist{1, []verifC15Op{ops[0], migrate, ops[3]}})
+		hists = append(hists, hist{2, []verifC15Op{ops[0], ops[1], ops[2], ops[3]}})
 	}
 
 	bases := map[uint]gatebe.State{}
@@ -185,7 +239,7 @@ func TestVerif_C15(t *testing.T) {
 			prefixCache[pname] = st
 			if !seen["final|"+store.StateKey(st)] {
 				seen["final|"+store.StateKey(st)] = true
-				if probs := verifC15Check(t, ctx, r.Scratch, st); len(probs) > 0 {
+				if probs := verifC15Check(t, ctx, r.Scratch, st, orderBound); len(probs) > 0 {
 					r.Violation(name, "C15|after-completed|"+pname, fmt.Sprintf("after the completed history %s: %s", pname, strings.Join(probs, "; ")), map[string]any{"history": pname})
 				}
 			}
@@ -204,7 +258,7 @@ func TestVerif_C15(t *testing.T) {
 				return verifRun(t, ctx, gopts, last.run)
 			},
 			StateOracle: func(ctx context.Context, c crashx.Crash) []string {
-				return verifC15Check(t, ctx, r.Scratch, c.State)
+				return verifC15Check(t, ctx, r.Scratch, c.State, orderBound)
 			},
 		}
 		crashx.Explore(r, t, sc, bound, seen)
@@ -212,4 +266,6 @@ func TestVerif_C15(t *testing.T) {
 	r.Extra("history_length_bound", vh.Pick(r, 2, 3))
 	r.Extra("deviation_bound_last_operation", bound)
 	r.Extra("histories", len(hists))
+	r.Extra("index_load_order_bound", orderBound)
+	r.Count("check_runs_over_index_load_orders", verifC15Orders)
 }
